@@ -912,6 +912,320 @@ def w_pipeline(item, seed=0, depth=2):
     return t
 
 
+# ----------------------------------------------------------------------------- F. factories: every public way of building a model
+# The lattice parts build probes with ProbePixelated.from_array / from_params and objects with ObjectPixelated.from_array. A model class can be
+# built in other ways (DIP probes whose network decides the mode count, uniform / random objects), and what the instance hands to the forward
+# model must be admissible whichever factory made it. The factories are listed by an ast scan of the anchored files; the ones not driven
+# here go to seam_missing.
+DRIVEN_FACTORIES = {
+    "ProbePixelated.from_array", "ProbePixelated.from_params", "ProbeDIP.from_model", "ProbeDIP.from_pixelated", "ProbeParametric.from_params",
+    "ObjectPixelated.from_array", "ObjectPixelated.from_uniform", "ObjectPixelated.from_random",
+}
+
+
+def scan_factories(repo_src):
+    """Public classmethods `from_*` of the concrete model classes in the anchored diffractive-imaging model files."""
+    import ast
+    import os
+
+    found = []
+    for f in ("probe_models.py", "object_models.py"):
+        path = os.path.join(repo_src, "quantem", "diffractive_imaging", f)
+        try:
+            tree = ast.parse(open(path).read())
+        except OSError:
+            continue
+        for n in tree.body:
+            if isinstance(n, ast.ClassDef):
+                for m in n.body:
+                    if isinstance(m, ast.FunctionDef) and m.name.startswith("from_") and any(getattr(d, "id", "") == "classmethod" for d in m.decorator_list):
+                        found.append(f"{n.name}.{m.name}")
+    return sorted(found)
+
+
+def _mixer(M, shape, seed):
+    """Tiny deterministic complex 'network': per-pixel gain, then a 1x1 mixing of the mode channels."""
+    torch = _torch()
+
+    class ModeMixer(torch.nn.Module):
+        def __init__(self):
+            super().__init__()
+            g = torch.Generator().manual_seed(int(seed))
+            self.mix = torch.nn.Parameter(torch.eye(M, dtype=torch.complex64) + 0.6 * torch.complex(torch.randn(M, M, generator=g), torch.randn(M, M, generator=g)))
+            self.gain = torch.nn.Parameter(torch.ones(shape, dtype=torch.complex64))
+
+        def forward(self, x):
+            return torch.einsum("om,bmhw->bohw", self.mix, x * self.gain)
+
+    return ModeMixer()
+
+
+def build_probe_by_factory(factory, M, roi, seed, declared):
+    """Returns (model, raw stack the constraint acts on as complex128 ndarray). `declared`: pass num_probes explicitly or leave the default."""
+    torch = _torch()
+    from quantem.diffractive_imaging import probe_models as PM
+
+    rs = np.array([0.05, 0.04])
+    stack = make_modes(M, 0.9, roi, "ascending", seed, 30).astype(np.complex64)
+    if factory == "ProbePixelated.from_array":
+        pm = PM.ProbePixelated.from_array(stack, probe_params={"energy": 80e3}, rng=int(seed) + 31, **({"num_probes": M} if declared else {}))
+        pm.set_initial_probe(roi, rs, 10.0)
+        return pm, pm.initial_probe.detach().numpy().astype(np.complex128)
+    if factory == "ProbePixelated.from_params":
+        pm = PM.ProbePixelated.from_params(probe_params={"energy": 80e3, "semiangle_cutoff": 20.0, "defocus": 100.0}, num_probes=M, rng=int(seed) + 31)
+        pm.set_initial_probe(roi, rs, 10.0)
+        return pm, pm.initial_probe.detach().numpy().astype(np.complex128)
+    if factory == "ProbeParametric.from_params":
+        pm = PM.ProbeParametric.from_params(probe_params={"energy": 80e3, "semiangle_cutoff": 20.0, "defocus": 100.0}, num_probes=M, rng=int(seed) + 31)
+        pm.set_initial_probe(roi, rs, 10.0)
+        return pm, None
+    net = _mixer(M, roi, int(seed) + 32)
+    if factory == "ProbeDIP.from_model":
+        pm = PM.ProbeDIP.from_model(model=net, model_input=torch.tensor(stack)[None], roi_shape=roi, rng=int(seed) + 31, input_noise_std=0.0, **({"num_probes": M} if declared else {}))
+        pm.set_initial_probe(roi, rs, 10.0)
+    else:
+        pix = PM.ProbePixelated.from_array(stack, probe_params={"energy": 80e3}, rng=int(seed) + 31)
+        pix.set_initial_probe(roi, rs, 10.0)
+        pm = PM.ProbeDIP.from_pixelated(model=net, pixelated=pix, input_noise_std=0.0)
+    with torch.no_grad():
+        raw = net(pm.model_input)[0].detach().numpy().astype(np.complex128)  # what the network yields before the constraint
+    return pm, raw
+
+
+def judge_probe_admissible(t, Q, raw, cls, case, where):
+    """The C10 probe clauses on what the instance hands out: orthogonal, same multiset of intensities as the raw stack, descending."""
+    M = Q.shape[0]
+    G = Q.reshape(M, -1) @ Q.reshape(M, -1).conj().T
+    ints = np.real(np.diag(G))
+    big = float(ints.max())
+    off = float(np.abs(G - np.diag(np.diag(G))).max()) / big if M > 1 else 0.0
+    t.stat("factory_gram_offdiag", off)
+    if off > TOL_GRAM:
+        t.fail({"relation": "probe_modes_orthogonal", **cls}, case, f"{where}: largest off-diagonal Gram entry is {off:.3g} of the largest mode intensity")
+    if raw is not None and raw.shape == Q.shape:
+        orig = np.sum(np.abs(raw) ** 2, axis=(1, 2))
+        e = float(np.abs(np.sort(ints) - np.sort(orig)).max()) / float(orig.max())
+        t.stat("factory_intensity_multiset_dev", e)
+        if e > 10 * TOL_INT:  # complex64 network output vs float64 bookkeeping: observed 4e-7
+            t.fail({"relation": "probe_intensity_multiset_preserved", **cls}, case, f"{where}: mode intensities {np.sort(ints)[::-1].round(4).tolist()} differ from the raw stack's {np.sort(orig)[::-1].round(4).tolist()}")
+    if M > 1 and float((ints[1:] - ints[:-1]).max()) > TOL_INT * big:
+        t.fail({"relation": "probe_intensities_descending", **cls}, case, f"{where}: mode intensities not in descending order: {ints.round(4).tolist()}")
+
+
+def judge_probe_factory(t, factory, M, roi, declared, ortho, seed):
+    case = {"kind": "probe_factory", "factory": factory, "M": M, "roi": list(roi), "declared_num_probes": declared, "orthogonalize_probe": ortho}
+    where = f"{factory} with {M} mode(s) roi={roi} num_probes {'given' if declared else 'left at its default'} orthogonalize_probe={ortho}"
+    cls = {"factory": factory, "declared_num_probes": declared}
+    try:
+        pm, raw = build_probe_by_factory(factory, M, tuple(roi), seed, declared)
+        pm.constraints = {"orthogonalize_probe": ortho}
+        Q = pm.probe.detach().numpy().astype(np.complex128)
+    except NotImplementedError:
+        t.extra["factory_rejects_mode_count_" + factory.replace(".", "_")] += 1
+        t.case(key=case, nontrivial=False, outcome=["rejected", factory, M])
+        return
+    except Exception as e:
+        t.case(key=case, nontrivial=True, outcome=["raised", type(e).__name__])
+        t.fail({"relation": "library_raises", "stage": "probe factory", "exception": type(e).__name__, **cls}, case, f"{where}: {type(e).__name__}: {str(e)[:200]}")
+        return
+    t.case(key=case, nontrivial=M > 1 and ortho, outcome=[factory, M, ortho, list(Q.shape)])
+    if Q.ndim != 3 or Q.shape[-2:] != tuple(roi) or not np.isfinite(Q).all():
+        t.fail({"relation": "probe_shape_finite", **cls}, case, f"{where}: probe has shape {Q.shape} / non-finite values")
+        return
+    if raw is not None and Q.shape[0] != raw.shape[0]:
+        t.fail({"relation": "probe_shape_finite", **cls}, case, f"{where}: {Q.shape[0]} modes handed out, the raw stack has {raw.shape[0]}")
+        return
+    if ortho:
+        judge_probe_admissible(t, Q, raw, cls, case, where)
+
+
+def judge_object_factory(t, factory, ot, S, seed):
+    torch = _torch()
+    from quantem.diffractive_imaging.object_models import ObjectPixelated
+
+    hw = (5, 6)
+    case = {"kind": "object_factory", "factory": factory, "obj_type": ot, "S": S}
+    where = f"{factory} obj_type={ot} S={S}"
+    raw = make_raw(("grid", 2), S, hw, seed)
+    init = raw.real.astype(np.float32) if ot == "potential" else raw.astype(np.complex64)
+    try:
+        if factory == "ObjectPixelated.from_array":
+            om = ObjectPixelated.from_array(init, slice_thicknesses=2.0 if S > 1 else None, obj_type=ot, rng=int(seed) + 41)
+            om.reset()
+        else:
+            om = getattr(ObjectPixelated, factory.split(".")[1])(num_slices=S, slice_thicknesses=2.0 if S > 1 else None, obj_type=ot, rng=int(seed) + 41)
+            ini = getattr(om, "_initialize_obj", None)  # what Ptychography.preprocess calls; no public equivalent
+            if ini is None:
+                t.extra["seam_missing__initialize_obj"] += 1
+                return
+            ini((S, *hw), (0.5, 0.5))
+            with torch.no_grad():
+                om.params.copy_(torch.tensor(init))  # raw parameters wherever the optimiser has driven them
+        with torch.no_grad():
+            o = om.obj.detach().numpy()
+    except Exception as e:
+        t.case(key=case, nontrivial=True, outcome=["raised", type(e).__name__])
+        t.fail({"relation": "library_raises", "stage": "object factory", "exception": type(e).__name__, "factory": factory}, case, f"{where}: {type(e).__name__}: {str(e)[:200]}")
+        return
+    t.case(key=case, nontrivial=True, outcome=[factory, ot, S, round(float(np.abs(o).max()), 4)])
+    cls = {"factory": factory, "obj_type": ot}
+    if o.shape != (S, *hw) or not np.isfinite(o).all():
+        t.fail({"relation": "constrained_object_finite", **cls}, case, f"{where}: object has shape {o.shape} / non-finite values")
+    elif ot == "complex" and float(np.abs(o).max()) > 1 + TOL_AMP:
+        t.fail({"relation": "complex_amplitude_at_most_one", **cls, "apply_fov_mask": False}, case, f"{where}: max |obj| = {np.abs(o).max():.7g} > 1")
+    elif ot == "pure_phase" and float(np.abs(np.abs(o) - 1).max()) > TOL_AMP:
+        t.fail({"relation": "pure_phase_unit_amplitude", **cls, "apply_fov_mask": False, "mask_below_one": False}, case, f"{where}: |obj| deviates from 1 by {np.abs(np.abs(o) - 1).max():.3g}")
+    elif ot == "potential" and float(o.min()) < 0:
+        t.fail({"relation": "potential_non_negative", **cls, "apply_fov_mask": False, "fix_potential_baseline": False}, case, f"{where}: min value {o.min():.6g} < 0 under the default positivity")
+
+
+def w_factory(item, seed=0):
+    t = Tally()
+    if item[0] == "probe":
+        _, factory, M, roi = item
+        for declared in (False, True):
+            if factory in ("ProbePixelated.from_params", "ProbeParametric.from_params", "ProbeDIP.from_pixelated") and not declared:
+                continue  # these factories always take / derive the mode count
+            for ortho in (True, False):
+                judge_probe_factory(t, factory, M, tuple(roi), declared, ortho, seed)
+    else:
+        _, factory, ot = item
+        for S in (1, 2, 3):
+            judge_object_factory(t, factory, ot, S, seed)
+    t.sample({"kind": "factory", "item": list(item)}, cap=2)
+    return t
+
+
+# ----------------------------------------------------------------------------- G. long histories on ONE model instance
+# Alphabet on a live ProbePixelated / ObjectPixelated instance: "opt" (an in-place optimiser step on the raw parameter, harness-owned
+# deterministic update p <- 0.9 p + fixed noise), "reset", "read" (.probe / .obj), "to" (to("cpu")), "copy" (deepcopy; the history continues on
+# the original AND on the copy), "saveload" (save + load; continues on both). Every history is followed by reset + read. After every reset the
+# instance must hand out exactly what it handed out after the first initialisation (1e-6 of the maximum), the stored initial array must never
+# change (bitwise), and the admissibility clauses (and, for the probe right after a reset, total intensity and mode shares) hold at every read.
+LIFE_EVENTS = ["opt", "reset", "read", "to", "copy", "saveload"]
+
+
+def _life_new(kind, seed):
+    torch = _torch()
+    if kind == "probe":
+        from quantem.diffractive_imaging.probe_models import ProbePixelated
+
+        P = make_modes(3, 0.5, (6, 8), "mixed", seed, 50).astype(np.complex64)
+        m = ProbePixelated.from_array(P, probe_params={"energy": 80e3}, initial_probe_weights=[0.6, 0.3, 0.1], rng=int(seed) + 51)
+        m.set_initial_probe((6, 8), np.array([0.05, 0.04]), 750.0)
+        return m
+    from quantem.diffractive_imaging.object_models import ObjectPixelated
+
+    raw = make_raw(("seeded", 1), 2, (5, 6), seed).astype(np.complex64)
+    m = ObjectPixelated.from_array(raw, slice_thicknesses=2.0, obj_type="complex", rng=int(seed) + 52)
+    m.reset()
+    return m
+
+
+def _life_read(kind, m):
+    torch = _torch()
+    with torch.no_grad():
+        out = (m.probe if kind == "probe" else m.obj).detach().numpy().copy()
+        ini = (m.initial_probe if kind == "probe" else m.initial_obj).detach().numpy().copy()
+    return out, ini
+
+
+def _life_opt(kind, m, step_no):
+    torch = _torch()
+    par = m.params[-1] if kind == "probe" else m.params
+    g = torch.Generator().manual_seed(1000 + step_no)
+    noise = torch.randn(par.shape, generator=g) * 0.05
+    with torch.no_grad():
+        par.data.mul_(0.9).add_(noise.to(par.dtype))
+
+
+def run_life_history(t, kind, events, seed, scratch):
+    import copy
+    import os
+
+    case = {"kind": "life", "model": kind, "events": list(events)}
+    where = f"{kind} model, history init ; " + " ; ".join(events) + " ; reset ; read"
+    restore_defaults()
+    try:
+        m0 = _life_new(kind, seed)
+        ref_out, ref_ini = _life_read(kind, m0)
+        scale = float(np.abs(ref_out).max())
+        live = [("original", m0)]
+        nbad = 0
+        for i, ev in enumerate(list(events) + ["reset", "read"]):
+            new = []
+            for name, m in live:
+                if ev == "opt":
+                    _life_opt(kind, m, i)
+                elif ev == "reset":
+                    m.reset()
+                elif ev == "to":
+                    m.to("cpu")
+                elif ev == "copy":
+                    new.append((name + "+deepcopy", copy.deepcopy(m)))
+                elif ev == "saveload":
+                    from quantem.core.io.serialize import load
+
+                    path = os.path.join(scratch, f"c10_life_{os.getpid()}_{kind}.zip")
+                    m.save(path, mode="o")
+                    new.append((name + "+saveload", load(path)))
+                    os.remove(path)
+            live += new[: max(0, 3 - len(live))]  # at most three live instances
+            for name, m in live:
+                out, ini = _life_read(kind, m)
+                at = f"{where}: after step {i + 1} ({ev}) on the {name}"
+                cls = {"model": kind, "instance": "copy" if "+" in name else "original"}
+                if not np.array_equal(ini, ref_ini):
+                    nbad += 1
+                    d = float(np.abs(ini - ref_ini).max()) / max(float(np.abs(ref_ini).max()), 1e-30)
+                    t.fail({"relation": "stored_initial_array_never_changes", **cls}, case, f"{at} the stored initial {'probe' if kind == 'probe' else 'object'} differs from the one stored at initialisation by {d:.3g} of its maximum")
+                if ev == "reset" or (ev == "read" and i == len(events) + 1):
+                    d = float(np.abs(out - ref_out).max()) / scale
+                    t.stat("life_reset_vs_first_dev", d)
+                    if d > 1e-6:
+                        nbad += 1
+                        extra = ""
+                        if kind == "probe":
+                            tot = float(np.sum(np.abs(np.fft.fft2(out, norm="ortho")) ** 2))
+                            per = np.sum(np.abs(out) ** 2, axis=(1, 2))
+                            extra = f" (total intensity {tot:.5g} instead of 750, mode shares {(per / per.sum()).round(3).tolist()})"
+                        t.fail({"relation": "reset_restores_first_initialisation", **cls}, case, f"{at} the model hands out something that differs from what it handed out after the first initialisation by {d:.3g} of the maximum{extra}")
+                if not np.isfinite(out).all():
+                    t.fail({"relation": "life_output_finite", **cls}, case, f"{at} non-finite values")
+                elif kind == "probe":
+                    Q = out.astype(np.complex128)
+                    G = Q.reshape(3, -1) @ Q.reshape(3, -1).conj().T
+                    ints = np.real(np.diag(G))
+                    off = float(np.abs(G - np.diag(np.diag(G))).max()) / float(ints.max())
+                    if off > TOL_GRAM or float((ints[1:] - ints[:-1]).max()) > TOL_INT * float(ints.max()):
+                        nbad += 1
+                        t.fail({"relation": "probe_modes_orthogonal", **cls}, case, f"{at} the probe handed out has off-diagonal {off:.3g} / intensities {ints.round(3).tolist()}")
+                elif float(np.abs(out).max()) > 1 + TOL_AMP:
+                    nbad += 1
+                    t.fail({"relation": "complex_amplitude_at_most_one", "obj_type": "complex", "apply_fov_mask": False, **cls}, case, f"{at} max |obj| = {np.abs(out).max():.6g} > 1")
+    except Exception as e:
+        t.case(key=case, nontrivial=True, outcome=["raised", type(e).__name__])
+        t.fail({"relation": "library_raises", "stage": "model life history", "exception": type(e).__name__, "model": kind}, case, f"{where}: {type(e).__name__}: {str(e)[:200]}")
+        restore_defaults()
+        return
+    restore_defaults()
+    t.case(key=case, nontrivial=("opt" in events and "reset" in events), outcome=[kind, len(events), nbad])
+
+
+def w_life(item, seed=0, maxlen=4, scratch="/tmp"):
+    """item = (model kind, first event): every history of 1..maxlen events that starts with it (then reset ; read)."""
+    kind, first = item
+    t = Tally()
+    for L in range(1, maxlen + 1):
+        for tail in itertools.product(LIFE_EVENTS, repeat=L - 1):
+            ev = (first, *tail)
+            if ev.count("copy") + ev.count("saveload") > 2 or ev.count("saveload") > 1 or ("saveload" in ev and len(ev) > min(3, maxlen - 2)):
+                continue  # bound on live instances; a file round trip costs ~0.3 s, so it only appears in histories of at most 2 (thorough: 3) events
+            run_life_history(t, kind, ev, seed, scratch)
+    t.sample({"kind": "life", "model": kind, "first_event": first, "max_events": maxlen}, cap=2)
+    return t
+
+
 # ----------------------------------------------------------------------------- driver
 def run(ctx):
     warnings.simplefilter("ignore")
@@ -1001,6 +1315,26 @@ def run(ctx):
     for ot, depth in ptypes:
         ctx.pmap(w_pipeline, [(ot, i) for i in range(-1, len(psteps))], chunk=1, label=f"pipeline histories ({ot}, depth {depth})", seed=ctx.seed, depth=depth)
     ctx.coverage["pipeline_histories"] = ctx.tally.n - before
+    import os
+
+    found = scan_factories(os.path.join(ctx.repo, "src"))
+    for f in found:
+        if f not in DRIVEN_FACTORIES:
+            ctx.seam_missing.append("factory_not_driven:" + f)
+    Mf = [1, 2, 3, 4]
+    pf = [f for f in sorted(DRIVEN_FACTORIES) if f.startswith("Probe")]
+    of = [f for f in sorted(DRIVEN_FACTORIES) if f.startswith("Object")]
+    ctx.coverage["alphabet"]["factories"] = {"found_by_ast_scan": found, "driven": sorted(DRIVEN_FACTORIES), "mode_counts": Mf, "roi": [[6, 8], [8, 8]], "num_probes": ["given", "left at its default"], "orthogonalize_probe": [True, False], "object_slices": [1, 2, 3]}
+    before = ctx.tally.n
+    items = [("probe", f, M, roi) for f in pf for M in Mf for roi in ((6, 8), (8, 8))] + [("object", f, ot) for f in of for ot in OBJ_TYPES]
+    ctx.pmap(w_factory, items, label="factories", seed=ctx.seed)
+    ctx.coverage["factory_points"] = ctx.tally.n - before
+    maxlen = 4 if q else 5
+    ctx.coverage["alphabet"]["life_histories"] = {"events": LIFE_EVENTS, "models": ["probe (ProbePixelated, 3 modes, weights 0.6/0.3/0.1, mean intensity 750)", "object (ObjectPixelated complex, 2 slices)"], "max_events_before_the_final_reset_and_read": {"probe": maxlen, "object": min(maxlen, 4)}}
+    before = ctx.tally.n
+    ctx.pmap(w_life, [("probe", e) for e in LIFE_EVENTS], chunk=1, label=f"probe life histories (up to {maxlen} events)", seed=ctx.seed, maxlen=maxlen, scratch=ctx.scratch)
+    ctx.pmap(w_life, [("object", e) for e in LIFE_EVENTS], chunk=1, label="object life histories", seed=ctx.seed, maxlen=min(maxlen, 4), scratch=ctx.scratch)
+    ctx.coverage["life_histories"] = ctx.tally.n - before
     if len(ctx.tally.outcomes) < 50:
         raise Broken("too few distinct outcomes: the lattice did not vary")
     if len(ctx.tally.nontrivial) < 1000:
@@ -1015,6 +1349,12 @@ def replay(ctx, case):
     seed = ctx.seed
     if k == "history":
         run_history(t, [list(e) for e in case["events"]])
+    elif k == "probe_factory":
+        judge_probe_factory(t, case["factory"], case["M"], tuple(case["roi"]), case["declared_num_probes"], case["orthogonalize_probe"], seed)
+    elif k == "object_factory":
+        judge_object_factory(t, case["factory"], case["obj_type"], case["S"], seed)
+    elif k == "life":
+        run_life_history(t, case["model"], tuple(case["events"]), seed, ctx.scratch)
     elif k == "pipeline":
         run_pipeline_history(t, case["obj_type"], [list(x) for x in case["steps"]], seed)
     elif k == "object":
